@@ -191,6 +191,8 @@ def run(chk):
     jobs = [(m, d, w) for m in MODES for d in dt_grid for w in ('conservation', 'boundary')]
     jobs += [(m, d, 'overflow') for m in MODES for d in (('float64',) * 4, ('float32',) * 4)]
     run_jobs(chk, job, jobs)
+    from . import shimval
+    shimval.validate(chk, 'inelastic', 40 if chk.tier == 'quick' else 240)
     run_jobs(chk, job_canary, [0])
     chk.bounds = {'shapes': 'scalar operands (kernels are element-wise)', 'dtypes': 'float64/float32 per operand',
                   'units': 'symbolic positive scale factor per operand (covers all units of the right dimension)',
